@@ -75,7 +75,9 @@ Record config := {
   fut_ps : option pstmt;              (* ResponseFuture.prepared_statement *)
   known : list (Z * pstmt);           (* cluster._prepared_statements *)
   pv : Z;                             (* cluster.protocol_version *)
-  tgt : option host                   (* ResponseFuture._host: execute(..., host=h); must be the `target` given to init *)
+  tgt : option host;                  (* ResponseFuture._host: execute(..., host=h); must be the `target` given to init *)
+  inline_retry : bool                 (* executor-first schedule: a submitted _retry_task runs before the submitting thread
+                                         goes on (so before _handle_retry_decision records the answering host's error) *)
 }.
 
 Record attempt := { a_host : host; a_prep : bool; a_done : bool; a_page : nat }.   (* a_page: the page fetch it belongs to *)
@@ -429,6 +431,29 @@ Definition page_start (c : config) (s : state) (p : list host) : state :=
      fin_res := None; fin_exc := None; spec_armed := false; spec_left := spec_left s;
      conn_ks := conn_ks s; paging := paging s; page_no := S (page_no s); elapsed := false; borrowed := borrowed s |}      (* _start_time = time.time(): each page fetch has its own timeout *).
 
+(* _set_result for a retryable failure under the executor-first schedule: _handle_retry_decision's last statement
+   `self._errors[host] = ...` runs AFTER the retry task it submitted.  (Early exit of _retry, a refused submit and the
+   decisions RETHROW / IGNORE are as in the other schedule.) *)
+Definition retry_inline (c : config) (s0 : state) (h : host) (k : ekind) (tag : Z) : state * list event :=
+  let clarg := if request_error_kind k then msg_cl s0 else None in
+  let '(d, dcl) := pol c (nconsult s0) k tag (retries s0) clarg in
+  let go (reuse : bool) :=
+    if is_some (fin_exc s0) || session_shut s0 then set_result c s0 h (RRetryable k tag)
+    else let '(s2, ev2) := run_task c (bump_counters (tick_consult s0) dcl) (TRetry reuse h) in
+         (set_err s2 h (EResp k tag),
+          Consult (nconsult s0) h k tag (retries s0) clarg d dcl :: ev2 ++ [ErrSet h (EResp k tag)]) in
+  match d with
+  | DRetry => go true
+  | DNextHost => go false
+  | _ => set_result c s0 h (RRetryable k tag)
+  end.
+
+Definition resp_current (c : config) (s0 : state) (h : host) (r : resp) : state * list event :=
+  match r with
+  | RRetryable k tag => if inline_retry c then retry_inline c s0 h k tag else set_result c s0 h r
+  | _ => set_result c s0 h r
+  end.
+
 (* ---------------------------------------------------------------- one step *)
 Definition step (c : config) (s : state) (o : op) : state * list event :=
   match o with
@@ -440,7 +465,7 @@ Definition step (c : config) (s : state) (o : op) : state * list event :=
           if a_done a then (s, [])
           else let s0 := set_attempts s (mark_done i (attempts s)) in
                if a_prep a then (submit s0 (TAfterPrepare (a_host a) r), [])
-               else if Nat.eqb (a_page a) (page_no s) then set_result c s0 (a_host a) r
+               else if Nat.eqb (a_page a) (page_no s) then resp_current c s0 (a_host a) r
                else (s0, [])        (* _set_result_of_page: the answer of an execution of an earlier page fetch is dropped *)
       end
   | Run k =>
